@@ -959,7 +959,7 @@ func TestVerifC11(t *testing.T) {
 		return
 	}
 	if cd := os.Getenv("VERIF_CORPUS"); cd != "" {
-		files, _ := filepath.Glob(filepath.Join(cd, "*.jsonl"))
+		files, _ := filepath.Glob(filepath.Join(cd, "r*.jsonl"))
 		sort.Strings(files)
 		for _, fn := range files {
 			readOps(fn)
